@@ -28,14 +28,19 @@ def anc(parent, b):
 
 
 def manual_inv(case, upto):
+    """ghost variable minv of BlockTree after the first `upto` steps (see Invalidate / Reconsider in the specification)"""
     w = world_of(case, upto)
     inv = set()
-    for s in case["steps"][:upto]:
+    for i, s in enumerate(case["steps"][:upto]):
         a = s["a"]
         if a[0] == "invalidate":
             inv.add(a[1])
         elif a[0] == "reconsider":
-            inv = {x for x in inv if not (x in anc(w["parent"], a[1]) or a[1] in anc(w["parent"], x))}
+            pre = case["steps"][i - 1]["exp"]["obs"] if i > 0 else case["init"]["obs"]
+            rel = lambda x: x in anc(w["parent"], a[1]) or a[1] in anc(w["parent"], x)
+            lifted = {x for x in inv if rel(x)}
+            kept = {y for y in pre["hdr"] if y in pre["failed"] and not rel(y) and any(x in anc(w["parent"], y) for x in lifted)}
+            inv = (inv - lifted) | kept
     return sorted(inv)
 
 
@@ -79,7 +84,7 @@ def replay_graph(ctx, binary, e1_cfg, obs_cfg, minwork, relevant, nontrivial_act
         if any(a in nontrivial_actions for a in acts):
             ctx.nontrivial.add(vflib.digest([s["a"] for s in p["steps"]]))
     ctx.log("E1 %s: %d states, %d transitions -> %d paths, %d steps" % (e1_cfg, len(g.nodes), g.nedges, len(paths), sum(len(p["steps"]) for p in paths)))
-    cap = int(os.environ.get("VERIF_MAX_PATHS", "24000"))
+    cap = int(os.environ.get("VERIF_MAX_PATHS", "24000" if ctx.tier == "thorough" else "1000000000"))
     if len(paths) > cap:
         import random
         keep = sorted(random.Random(ctx.seed).sample(range(len(paths)), cap))
